@@ -14,6 +14,8 @@
      BNAtt  {n, d, u}          node n's beacon mock answered an attestation-data query with data of root u
      ExSend / ExFail {n, d, parts}   (mode mem) an attempt of the in-memory exchange component's Broadcast (under the retry wrapper)
      ByzSend {n, to, d, parts, what}  the Byzantine member puts a crafted message on the wire
+     BNSub / BNFail {n, d, set: [{r, ok}]}   node n's Broadcaster submits signed objects to its beacon mock (BNFail: the mock
+                                      answers with a retryable error, the retryer repeats the Broadcast)
      Start / Stop {n}, RunErr, End   life cycle (no spec step: nothing is demanded of progress)
 
    Roots are real HashTreeRoot / MessageRoot values (12 hex digits), ok flags real tbls verifications under the lock's public
@@ -56,6 +58,8 @@ TOther ==
   \/ IsEvent("ExSend") /\ ExSend(Ev.n, Ev.d, PartsOf(Ev))
   \/ IsEvent("ExFail") /\ ExSend(Ev.n, Ev.d, PartsOf(Ev))
   \/ IsEvent("ByzSend") /\ ByzSend(Ev.n, Ev.to, Ev.d, PartsOf(Ev))
+  \/ IsEvent("BNSub") /\ BNSub(Ev.n, Ev.d, SetOf(Ev))
+  \/ IsEvent("BNFail") /\ BNSub(Ev.n, Ev.d, SetOf(Ev))
   \/ \E e \in {"Start", "Stop", "RunErr", "End"} : IsEvent(e) /\ Nop
 TraceNext == TReset \/ TCall \/ TRet \/ TOther
 TraceSpec == TraceInit /\ [][TraceNext]_tvars
